@@ -916,9 +916,25 @@ func genTxnPrograms(repo string, o out) {
 		}
 		colls = append(colls, fmt.Sprintf("{ name := %s, params := %s,\n    steps := [%s] }", lstr(name), lstrs(params), strings.Join(collSteps(fd), ", ")))
 	}
+	// the bodies of the Clone functions whose meaning `cloneCatalog` / `cloneColl` state (text, whitespace-normalised)
+	var clones []string
+	for _, c := range []struct{ file, recv, label string }{
+		{"catalog.go", "Catalog", "lungo.Catalog.Clone"},
+		{"mongokit/collection.go", "Collection", "mongokit.Collection.Clone"},
+		{"mongokit/index.go", "Index", "mongokit.Index.Clone"},
+		{"bsonkit/set.go", "Set", "bsonkit.Set.Clone"},
+		{"bsonkit/index.go", "Index", "bsonkit.Index.Clone"},
+	} {
+		body := "<missing>"
+		if fd := method(parse(filepath.Join(repo, c.file)), c.recv, "Clone"); fd != nil {
+			body = src(fd.Body)
+		}
+		clones = append(clones, "("+lstr(c.label)+", "+lstr(body)+")")
+	}
 	content := "/- GENERATED by /verif/go/cmd/extract from /repo's working tree. Do not edit. -/\nimport Lungo.Model.Own\nnamespace Lungo.Gen\nopen Lungo.Own\n\n" +
 		"def txnPrograms : List (String × Prog) := [\n  " + strings.Join(progs, ",\n  ") + "]\n\n" +
-		"def collPrograms : List CollProg := [\n  " + strings.Join(colls, ",\n  ") + "]\n" +
+		"def collPrograms : List CollProg := [\n  " + strings.Join(colls, ",\n  ") + "]\n\n" +
+		"def cloneBodies : List (String × String) := [\n  " + strings.Join(clones, ",\n  ") + "]\n" +
 		"\nend Lungo.Gen\n"
 	o.raw("TxnPrograms", content)
 }
